@@ -218,11 +218,15 @@ def record_real_fit(fam):
 @contextlib.contextmanager
 def patch_attr(obj, name, value):
     """harness-level rebinding that is active in symbolic AND concrete mode (recording / probing stubs)"""
+    from . import shim
     old = getattr(obj, name)
     setattr(obj, name, value)
+    frame = [(obj, name, old, value)]
+    shim._ACTIVE.append(frame)      # so that a concrete replay from inside a symbolic run sees the real binding
     try:
         yield
     finally:
+        shim._ACTIVE.remove(frame)
         setattr(obj, name, old)
 
 
